@@ -10,7 +10,8 @@ from typing import Any, Union
 from harness.core import sp
 
 PID = "C07"
-RULE = ("a case is a tree of dataclasses: every class has 0-2 int/str leaf fields and (down to depth 3) 1-3 subgroup "
+RULE = ("a case is a tree of dataclasses: every class has 0-2 int/str leaf fields, sometimes a cmd=False field (no "
+        "option; partial / instance entries bind it to a value that differs from the class default) and (down to depth 3) 1-3 subgroup "
         "fields, each a dict of 2-3 alternatives that are dataclass types, functools.partial objects (keywords on a "
         "subset of the leaves) or frozen instances; sibling alternatives share field names, 30% of the trees also reuse "
         "names across levels (clashes, resolved by the conflict resolver); command line = `--opt value` / `--opt=value` "
@@ -69,7 +70,11 @@ def build_class(spec: dict):
 
     fields = []
     for f in spec["fields"]:
-        if f["k"] == "leaf":
+        if f["k"] == "hidden":
+            from simple_parsing.helpers import field as sp_field
+
+            fields.append((f["name"], int if f["ty"] == "int" else str, sp_field(default=pyval(f["default"]), cmd=False)))
+        elif f["k"] == "leaf":
             ty = int if f["ty"] == "int" else str
             if f.get("default") is None:
                 fields.append((f["name"], ty))
@@ -317,6 +322,8 @@ def expect_tree(c: dict, hyp_abbrev_selects: bool, opt_of):
     def declare(cls, dest, kwalt):
         # first pass: names of this class
         for f in cls["fields"]:
+            if f["k"] == "hidden":
+                continue          # cmd=False: no option exists for it
             d = f"{dest}.{f['name']}"
             o = opt_of(d, f["name"])
             if o in active:
@@ -340,7 +347,7 @@ def expect_tree(c: dict, hyp_abbrev_selects: bool, opt_of):
         for f in cls["fields"]:
             d = f"{dest}.{f['name']}"
             o = opt_of(d, f["name"])
-            if f["k"] == "leaf":
+            if f["k"] != "sub":
                 continue
             keys = [a["key"] for a in f["alts"]]
             g = given_for(o, True)
@@ -383,7 +390,9 @@ def expect_tree(c: dict, hyp_abbrev_selects: bool, opt_of):
         for f in cls["fields"]:
             d = f"{dest}.{f['name']}"
             o = opt_of(d, f["name"])
-            if f["k"] == "leaf":
+            if f["k"] == "hidden":
+                leaves[d] = alt_default(alt, f)      # what the chosen entry itself produces
+            elif f["k"] == "leaf":
                 val = None
                 for (ao, v) in addressed:
                     if ao == o:
@@ -427,6 +436,8 @@ def clash_possible(c: dict, opt_of) -> bool:
     def walk(cls, dest, path):
         for f in cls["fields"]:
             d = f"{dest}.{f['name']}"
+            if f["k"] == "hidden":
+                continue
             seen.setdefault(opt_of(d, f["name"]), []).append(path)
             if f["k"] == "sub":
                 for a in f["alts"]:
@@ -513,6 +524,11 @@ def oracle_e2e(c: dict, obs: dict) -> list[dict]:
     # name clashes (or a dash/BOTH spelling): judge an accepted parse with the real parser's own option table
     if obs["o"] != "ok":
         return []
+    if c["mode"] != "AUTO":
+        # EXPLICIT renames options that the choice parser already holds under their old spelling (see the open
+        # finding C07-explicit-reregister): which option addressed which subgroup in its round cannot be read off the
+        # final table, so clash trees under the non-default modes are left to the correspondence ops
+        return []
     table = obs["table"]
     owner = {}
     for (d, opts, is_sub) in table:
@@ -529,6 +545,11 @@ def oracle_e2e(c: dict, obs: dict) -> list[dict]:
     def check(cls, dest, alt):
         for f in cls["fields"]:
             d = f"{dest}.{f['name']}"
+            if f["k"] == "hidden":
+                if obs["leaves"].get(d) != alt_default(alt, f):
+                    fails.append({"clause": "value", "detail": f"{d} (cmd=False): observed {obs['leaves'].get(d)} "
+                                                               f"expected the chosen entry's {alt_default(alt, f)}"})
+                continue
             opts = next((o for (dd, o, _) in table if dd == d), None)
             if opts is None:
                 fails.append({"clause": "select", "detail": f"no field wrapper for {d}"})
@@ -733,9 +754,18 @@ def default_constructible(sub_field) -> bool:
         if f["k"] == "leaf":
             if f["default"] is None and f["name"] not in given:
                 return False
-        elif not default_constructible(f):
+        elif f["k"] == "sub" and not default_constructible(f):
             return False
     return True
+
+
+def other_scalar(rng, f):
+    """a value of the field's type that differs from the class default"""
+    for _ in range(20):
+        v = rand_scalar(rng, f["ty"])
+        if v != f["default"]:
+            return v
+    return {"t": "int", "v": "4242"} if f["ty"] == "int" else {"t": "str", "v": "other"}
 
 
 def gen_cls(rng, names: Names, depth_left: int, pool: list[tuple[str, str]] | None, is_root=False, allow_required=True):
@@ -755,6 +785,12 @@ def gen_cls(rng, names: Names, depth_left: int, pool: list[tuple[str, str]] | No
         used.add(nm)
         required = allow_required and rng.random() < 0.08
         fields.append({"k": "leaf", "name": nm, "ty": ty, "default": None if required else rand_scalar(rng, ty)})
+    if rng.random() < 0.3:
+        nm = names.fresh(False)
+        if nm not in used:
+            used.add(nm)
+            ty = rng.choice(["int", "str"])
+            fields.append({"k": "hidden", "name": nm, "ty": ty, "default": rand_scalar(rng, ty)})
     n_sub = 0
     if depth_left > 0:
         n_sub = rng.choice([1, 1, 2, 3]) if is_root else rng.choice([0, 1, 1, 2])
@@ -769,12 +805,12 @@ def gen_cls(rng, names: Names, depth_left: int, pool: list[tuple[str, str]] | No
         for k in keys:
             kind = rng.choice(["type", "type", "partial", "partial", "inst"])
             cls = gen_cls(rng, names, depth_left - 1, sibling_pool, allow_required=(kind != "inst"))
-            leaves = [f for f in cls["fields"] if f["k"] == "leaf"]
+            leaves = [f for f in cls["fields"] if f["k"] in ("leaf", "hidden")]
             kw = []
             if kind == "partial":
                 for f in leaves:
                     if rng.random() < 0.6 or f["default"] is None and rng.random() < 0.7:
-                        kw.append([f["name"], rand_scalar(rng, f["ty"])])
+                        kw.append([f["name"], other_scalar(rng, f) if f["k"] == "hidden" else rand_scalar(rng, f["ty"])])
             elif kind == "inst":
                 subs_ = [f for f in cls["fields"] if f["k"] == "sub"]
                 # the instance must be constructible: its subgroup fields need a callable default entry
@@ -784,7 +820,7 @@ def gen_cls(rng, names: Names, depth_left: int, pool: list[tuple[str, str]] | No
                 else:
                     cls["frozen"] = True
                     for f in leaves:
-                        kw.append([f["name"], rand_scalar(rng, f["ty"]) if rng.random() < 0.6 else f["default"]])
+                        kw.append([f["name"], other_scalar(rng, f) if (f["k"] == "hidden" or rng.random() < 0.6) else f["default"]])
             alts.append({"key": k, "kind": kind, "kw": kw, "cls": cls})
         default = rng.choice(keys) if rng.random() < 0.85 else None
         fields.append({"k": "sub", "name": nm, "default": default, "alts": alts})
@@ -801,6 +837,9 @@ def selection(rng, c_root, dest, opt_of):
         for f in cls["fields"]:
             dd = f"{d}.{f['name']}"
             o = opt_of(dd, f["name"])
+            if f["k"] == "hidden":
+                foreign.append([o, f])
+                continue
             if f["k"] == "leaf":
                 if rng.random() < 0.45 or f["default"] is None and rng.random() < 0.8:
                     v = rng.choice(["5", "12", "77", "0"]) if f["ty"] == "int" else rng.choice(["w", "val", "k9"])
@@ -852,7 +891,7 @@ def tree_case(rng, tier):
     tag = "valid"
     if kind < 0.12 and foreign:
         o, g = rng.choice(foreign)
-        v = "5" if g["k"] == "leaf" and g["ty"] == "int" else ("w" if g["k"] == "leaf" else g["alts"][0]["key"])
+        v = ("5" if g["ty"] == "int" else "w") if g["k"] in ("leaf", "hidden") else g["alts"][0]["key"]
         pairs.insert(rng.randint(0, len(pairs)), [o, v])
         tag = "foreign"
     elif kind < 0.2:
@@ -975,15 +1014,20 @@ def tags(case, obs):
         t.append("gen:" + c.get("gtag", "corpus"))
         t.append("cfg:" + c["cfg"]["gen"] + "/" + c["mode"])
         kinds = set()
+        hidden_inst: list[int] = []
 
-        def walk(cls):
+        def walk(cls, depth=1):
             for f in cls["fields"]:
                 if f["k"] == "sub":
                     for a in f["alts"]:
                         kinds.add(a["kind"])
-                        walk(a["cls"])
+                        if a["kind"] == "inst" and any(g["k"] == "hidden" for g in a["cls"]["fields"]):
+                            hidden_inst.append(depth)
+                        walk(a["cls"], depth + 1)
         walk(c["root"])
         t += ["alt:" + k for k in sorted(kinds)]
+        if any(a_has_hidden for a_has_hidden in hidden_inst):
+            t.append("inst-with-cmdFalse-attr:depth%d" % max(hidden_inst))
         if case["op"] == "sg.e2e" and obs.get("o") == "ok":
             t.append("resolved:%d" % len(obs["classes"]))
     return t
